@@ -37,6 +37,23 @@ void ord_clearBatch(void)
 static void CREATE_BATCH(double maxc) { batches++; ord_createBatch(maxc); }
 bool ord_sampleUniform(double maxCost)
 /*@BODY ord_sampleUniform@*/
+/* ---- InformedSampler::heuristicSolnCost: the best over ALL start states ---- */
+#define NST 4
+unsigned N_STARTS; double VIA[NST]; unsigned via_calls[NST]; double INF_COST;
+static double VIA_START(unsigned i) { __CPROVER_assert(i < N_STARTS && i < NST, "start index"); via_calls[i]++; return VIA[i]; }
+static double BETTER_COST(double a, double b) { return b < a ? b : a; }
+double is_heuristicSolnCost(void)
+/*@BODY is_heuristicSolnCost@*/
+void h_heur(void)
+{
+    __CPROVER_assume(N_STARTS >= 1 && N_STARTS <= NST && INF_COST == __builtin_inf()); for (unsigned i = 0; i < NST; i++) { __CPROVER_assume(VIA[i] == VIA[i] && VIA[i] < INF_COST); via_calls[i] = 0; }
+    double r = is_heuristicSolnCost();
+    unsigned g = nondet_unsigned(); __CPROVER_assume(g < N_STARTS);
+    __CPROVER_assert(r <= VIA[g] && via_calls[g] == 1, "C15.cost the heuristic solution cost is the best over ALL start states: no start offers a cheaper solution through the state");
+    bool attained = false; for (unsigned i = 0; i < NST; i++) if (i < N_STARTS && VIA[i] == r) attained = true;
+    __CPROVER_assert(attained, "C15.cost and it is the cost through one of them");
+    if (N_STARTS == 1) REACH("single start"); if (N_STARTS == 3 && r == VIA[0] && r < VIA[1] && r < VIA[2]) REACH("first of three starts is best");
+}
 void h_iss(void)
 {
     __CPROVER_assume(BEST_NOW == BEST_NOW); ver = 0; inf_calls = base_calls = best_calls = 0; inf_ver = base_ver = 99;
